@@ -493,3 +493,60 @@ Proof.
   split; apply eqm_def; reflexivity.
 Qed.
 Print Assumptions C17_nonvacuous.
+
+(* ===================================================================== *)
+(* 6. Capstone for the BEC2 layer (Proofs/Capstone.v): the round-trip theorem of C02 and the
+   ECIES recovery theorem of C09 with every plug-in instantiated by the models of the bundled
+   code - pyaes (C16) and the P-256 plug-in above.  What remains abstract: sha256 and the
+   random sources; what remains assumed, by name: the group laws of P-256. *)
+From Bec2 Require Import Gen.Consts Model.Cbc Model.Bf3 Model.AesContainer Model.Bec2 Model.Aes
+  Proofs.Bf3TextProofs Proofs.Bec2Proofs Proofs.EccBlockProofs Proofs.Capstone.
+
+Theorem C17_bec2_roundtrip_capstone : forall inG gadd gneg,
+  ec_group p256_p p256_a inG gadd gneg -> inG p256_Gpt ->
+  zmul gadd gneg p256_n p256_Gpt = None ->
+  (forall k, (0 < k < p256_n)%Z -> zmul gadd gneg k p256_Gpt <> None) ->
+  (forall q, inG (Some q) -> on_curve p256_p p256_a p256_b q) ->
+  forall sha256 keygen rand16 f bs key encs decs nk t nk' check nr,
+    blen key = 16%N -> wf_file f -> bs <> [] ->
+    NoDup (map fst bs) -> all_match p256_pub_of bs encs decs ->
+    bec2_write_file (adapter_encrypt aes_E) (adapter_mac aes_E) sha256 p256_pub_of p256_ecdh keygen (mkBec2 f bs key) encs nk = Ok (t, nk') ->
+    bec2_read_file (adapter_decrypt aes_D) (adapter_mac aes_E) sha256 p256_valid_pub p256_ecdh rand16 t decs check nr =
+      Ok (mkBec2 (file_view f) bs key, nr).
+Proof.
+  intros inG gadd gneg H1 H2 H3 H4 H5 sha256 keygen rand16.
+  exact (bec2_roundtrip_bundled inG gadd gneg H1 H2 H3 H4 H5 sha256 keygen rand16).
+Qed.
+Print Assumptions C17_bec2_roundtrip_capstone.
+
+Theorem C17_ecies_recover_capstone : forall inG gadd gneg,
+  ec_group p256_p p256_a inG gadd gneg -> inG p256_Gpt ->
+  zmul gadd gneg p256_n p256_Gpt = None ->
+  (forall k, (0 < k < p256_n)%Z -> zmul gadd gneg k p256_Gpt <> None) ->
+  (forall q, inG (Some q) -> on_curve p256_p p256_a p256_b q) ->
+  forall sha256 keygen sel key exts nk raw nk' s d pr,
+    blen key = 16%N ->
+    select_encryptor KEcc exts
+      (match default_pub sel with Some p => Some (EEcc sel p None) | None => None end) (ecc_sel_is sel)
+      = Ok (EEcc s (p256_pub_of d) pr) ->
+    pack (adapter_encrypt aes_E) sha256 p256_pub_of p256_ecdh keygen (ABEcc sel) key exts nk = Ok (raw, nk') ->
+    ecies_recipient (adapter_decrypt aes_D) sha256 p256_ecdh d raw = Ok (sel, key).
+Proof.
+  intros inG gadd gneg H1 H2 H3 H4 H5 sha256 keygen.
+  exact (ecies_recovers_bundled inG gadd gneg H1 H2 H3 H4 H5 sha256 keygen).
+Qed.
+Print Assumptions C17_ecies_recover_capstone.
+
+(* invalid ephemeral points are refused by the BEC2 reader over the P-256 plug-in model: no hypothesis *)
+Theorem C17_reject_point_capstone : forall (D : bytes -> bytes -> bytes) sha256 sel s pub d tp ct decs,
+  blen tp = 64%N ->
+  ((p256_p <= raw_x tp)%Z \/ (p256_p <= raw_y tp)%Z \/ ~ on_curve p256_p p256_a p256_b (raw_x tp, raw_y tp)) ->
+  select_encryptor KEcc decs None (ecc_sel_is (b2n sel)) = Ok (EEcc s pub (Some d)) ->
+  Model.Bec2.unpack (adapter_decrypt D) sha256 p256_valid_pub p256_ecdh TAG_ECC (sel :: x04 :: tp ++ ct) decs = Err EValue.
+Proof.
+  intros D sha256 sel s pub d tp ct decs Hl Hbad Hs.
+  apply (invalid_point_refused (adapter_decrypt D) sha256 p256_valid_pub p256_ecdh sel s pub d tp ct decs Hl).
+  - apply valid_pub_rejects. right. exact Hbad.
+  - exact Hs.
+Qed.
+Print Assumptions C17_reject_point_capstone.
